@@ -9,6 +9,7 @@ import (
 	"github.com/lugu/qiloop/bus/net"
 	"github.com/lugu/qiloop/type/basic"
 	"github.com/lugu/qiloop/type/value"
+	"github.com/lugu/qiloop/vhook"
 )
 
 type signalUser struct {
@@ -81,12 +82,14 @@ func (o *signalHandler) addSignalUser(userID uint64, signalID, messageID uint32,
 
 	for _, user := range o.signals {
 		if user.userID == userID {
+			vhook.Emit("signal", o, "add_dup", "user", userID, "signal", signalID, "ep", vhook.ID(e))
 			o.signalsMutex.Unlock()
 			user.context.EndPoint().RemoveHandler(user.contextID)
 			return fmt.Errorf("user %d already exists", userID)
 		}
 	}
 	o.signals = append(o.signals, newUser)
+	vhook.Emit("signal", o, "add", "user", userID, "signal", signalID, "msg", messageID, "ep", vhook.ID(e), "n", len(o.signals))
 	o.signalsMutex.Unlock()
 	return nil
 
@@ -101,12 +104,14 @@ func (o *signalHandler) removeSignalUser(userID uint64, from Channel) error {
 			if from.EndPoint() == user.context.EndPoint() {
 				o.signals[i] = o.signals[len(o.signals)-1]
 				o.signals = o.signals[:len(o.signals)-1]
+				vhook.Emit("signal", o, "remove", "user", userID, "signal", user.signalID, "ep", vhook.ID(from.EndPoint()), "n", len(o.signals))
 				o.signalsMutex.Unlock()
 				user.context.EndPoint().RemoveHandler(user.contextID)
 				return nil
 			}
 		}
 	}
+	vhook.Emit("signal", o, "remove_unknown", "user", userID, "ep", vhook.ID(from.EndPoint()))
 	o.signalsMutex.Unlock()
 	return fmt.Errorf("unknown user id %d", userID)
 }
@@ -136,6 +141,7 @@ func (o *signalHandler) RegisterEvent(msg *net.Message, from Channel) error {
 		return from.SendError(msg, err)
 	}
 	messageID := msg.Header.ID
+	vhook.Gate("signal.register", "user", userID, "signal", signalID)
 	err = o.addSignalUser(userID, signalID, messageID, from)
 	if err != nil {
 		err = fmt.Errorf("cannot register user uid %d: %s",
@@ -175,11 +181,13 @@ func (o *signalHandler) UnregisterEvent(msg *net.Message, from Channel) error {
 		err = fmt.Errorf("cannot read user uid: %s", err)
 		return from.SendError(msg, err)
 	}
+	vhook.Gate("signal.unregister", "user", userID)
 	err = o.removeSignalUser(userID, from)
 	if err != nil {
 		return from.SendError(msg, err)
 	}
 	var out bytes.Buffer
+	vhook.Gate("signal.unregister.ack", "user", userID)
 	return from.SendReply(msg, out.Bytes())
 }
 
@@ -194,9 +202,11 @@ func (o *signalHandler) UpdateSignal(signalID uint32, data []byte) error {
 			signals = append(signals, user)
 		}
 	}
+	vhook.Emit("signal", o, "snapshot", "signal", signalID, "n", len(signals), "data", data)
 	o.signalsMutex.RUnlock()
 
 	for _, user := range signals {
+		vhook.Gate("signal.update.send", "user", user.userID, "signal", signalID, "data", data)
 		err := o.replyEvent(&user, signalID, data)
 		if err == io.EOF {
 			err := o.removeSignalUser(user.userID, user.context)
@@ -246,6 +256,7 @@ func (o *signalHandler) OnTerminate() {
 	o.signalsMutex.Lock()
 	signals := o.signals
 	o.signals = []signalUser{}
+	vhook.Emit("signal", o, "terminate", "n", len(signals))
 	o.signalsMutex.Unlock()
 	for _, user := range signals {
 		o.sendTerminate(&user, user.signalID)
